@@ -225,7 +225,8 @@ let tuple ?(uns = false) (kind : fskind) (r : rt) ~(big : bool) ~(early : bool) 
   let h0 = match kind with KReaddir | KClosedir -> alloc BkDir h_empty | _ -> h_empty in
   let c0 = count h0 in
   let cb = r <> Sync in
-  let nn = nat_of_int n in
+  (* the count only matters for the entry lists of scandir/readdir *)
+  let nn = nat_of_int (if kind = KScandir || kind = KReaddir then n else 0) in
   let (hs, (q2, h2)) =
     if early then (h0, (req_early kind cb, h0))
     else begin
